@@ -23,7 +23,7 @@ def generate(seed, scratch):
     rs = core.rng_for(seed, "sched")
     return {"property": PID, "seed": seed, "world": world, "cfg": cfg,
             "schedule": {"cwd": rs.choice(["root", "root", "bld", "top", "d1"]),
-                         "cov": rs.random() < 0.3,
+                         "cov": rs.random() < 0.3, "cov_rel_S": rs.random() < 0.5,
                          "fault_free": all(v == 0 for v in cfg["faults"].values())}}
 
 
@@ -158,7 +158,8 @@ def execute(case, scratch):
             cwd = os.path.join(top, gen.BUILD_OUT)
             os.makedirs(cwd, exist_ok=True)
             cres = runners.run_fresh("cli_run", {"top": top, "cwd": cwd, "module": "codebasin.coverage",
-                                                 "argv": ["compute", "-S", root, "-o", os.path.join(cwd, "cov.json"),
+                                                 "argv": ["compute", "-S", os.path.relpath(root, cwd) if sched.get("cov_rel_S") else root,
+                                                          "-o", os.path.join(cwd, "cov.json"),
                                                           os.path.join(top, p["db"])],
                                                  "keep": ["cov.json", "cbi.log"]})
             stats["cli_runs"] += 1
